@@ -1,4 +1,5 @@
 import PsModel.Gen.Const
+import PsModel.Gen.ReqTbl
 /-!
 # C20 model – requirements resolution (`requirements.py`)
 
@@ -18,7 +19,9 @@ Strings are `List Char`.  Versions are abstract: `Ver V` gives `parse : Str → 
 `InvalidVersion`) and `le` (`Version.__le__`); theorems assume only that `le` is a total preorder.  `numVer` is the
 instance used by the driver and by the `_cex` theorems (PEP 440 public and local versions).
 
-`Cfg` carries the two deviation parameters of DESIGN §4.  `current` is the code today, i.e. after the three `fix:`
+`Cfg` carries the deviation parameters of DESIGN §4; since round 4 the values of `current` are GENERATED from the source
+(`Gen/ReqTbl.lean`, `tools/extractors/C20.py`) and the hand-written values live on as `Cfg.round3` / `Cfg.preFix` / …
+`current` is the code today, i.e. after the three `fix:`
 commits of /repo (e2ec6b7: `validateFirstPin := true`, a pin is validated before it is looked at at all – findings
 C20-F1, F2, F4; d07dfc5 refined by 5d02a52: `specPats := "," ">" "<" "~=" "!="`, substring patterns, so that a version
 epoch such as `==1!2.0` is not rejected – finding C20-F3; ed5a646: `stripBom := true`, files are read with `utf-8-sig` –
@@ -42,18 +45,48 @@ structure Cfg where
   /-- the files are opened with `encoding="utf-8-sig"` (l.67): a byte-order mark at the start of a file is dropped by
   the decoder; with plain `"utf-8"` it stays in the first line -/
   stripBom : Bool
+  /-- the rejection test also refuses a line whose name part is not a PEP 508 distribution name
+  (`or not VALID_PACKAGE_NAME.fullmatch(parts[0])`; the repair of C20-F6) -/
+  nameCheck : Bool
+  /-- the table is keyed by the PEP 503 normal form of the name (`pkg_name = canonical_name(parts[0])`; repair of
+  C20-F7) -/
+  normNames : Bool
+  /-- the record is read through `{canonical_name(k): v …}` (second half of the repair of C20-F7) -/
+  normRecKeys : Bool
+  /-- the install decision compares versions through `same_version` (text equality, else `Version` equality; a string
+  that is not a version only equals itself) instead of `Version(a) != Version(b)` (repair of C20-F9) -/
+  tolerantCmp : Bool
+  /-- what the installer did install is recorded before its `RequirementsNotFound` is raised again (repair of C20-F5) -/
+  recordPartial : Bool
 deriving DecidableEq, Repr
 
-/-- parameter values matching the code today (the correspondence check is what certifies them) -/
+/-- **the code today**: every value is read off `requirements.py` by `tools/extractors/C20.py` on every run
+(`Gen/ReqTbl.lean`); the theorems about `current` are therefore re-checked against what the code says now, and a
+shape the extractor does not know withholds the definition.  The further shape parameters that have no pre-fix
+variant (comment mark, strip, blank skip, the `==` split and its part limit, the case split `REQ_MERGE_ROWS`, the opt-in
+guard, the per-package decision `REQ_DECIDE_ROWS`) are used directly by the functions below. -/
 def current : Cfg :=
-  { validateFirstPin := true, specPats := [[','], ['>'], ['<'], ['~', '='], ['!', '=']], stripBom := true }
+  { validateFirstPin := Gen.REQ_VALIDATE_FIRST_PIN, specPats := Gen.REQ_SPEC_PATS.map String.toList,
+    stripBom := Gen.REQ_STRIP_BOM, nameCheck := Gen.REQ_NAME_CHECK, normNames := Gen.REQ_NORMALISE_NAMES,
+    normRecKeys := Gen.REQ_RECORD_KEYS_NORMALISED, tolerantCmp := Gen.REQ_TOLERANT_COMPARE,
+    recordPartial := Gen.REQ_RECORDS_PARTIAL_INSTALL }
 
-/-- today's code before `fix:` ed5a646 (finding C20-F8): files read with `encoding="utf-8"` -/
-def Cfg.preBomFix : Cfg := { current with stripBom := false }
+/-- hand-written: the code as it was at the end of the build round (after e2ec6b7, d07dfc5 + 5d02a52, ed5a646; before
+the repairs of C20-F5/F6/F7/F9) – the regression configuration for those four -/
+def Cfg.round3 : Cfg :=
+  { validateFirstPin := true, specPats := [[','], ['>'], ['<'], ['~', '='], ['!', '=']], stripBom := true,
+    nameCheck := false, normNames := false, normRecKeys := false, tolerantCmp := false, recordPartial := false }
 
-/-- before the two `fix:` commits: the first pin is never validated (l.102–103 absent) and the rejection test is
+/-- hand-written: the code after the repair of C20-F9 (`same_version`); what `current` is generated to be today
+(`Props.C20_current_shape`) -/
+def Cfg.round4 : Cfg := { Cfg.round3 with tolerantCmp := true }
+
+/-- before `fix:` ed5a646 (finding C20-F8): files read with `encoding="utf-8"` -/
+def Cfg.preBomFix : Cfg := { Cfg.round3 with stripBom := false }
+
+/-- before the first `fix:` commits: the first pin is never validated (l.102–103 absent) and the rejection test is
 `"," in pkg or ">" in pkg or "<" in pkg` -/
-def Cfg.preFix : Cfg := { validateFirstPin := false, specPats := [[','], ['>'], ['<']], stripBom := false }
+def Cfg.preFix : Cfg := { Cfg.round3 with validateFirstPin := false, specPats := [[','], ['>'], ['<']], stripBom := false }
 
 /-- `UNPINNED_VERSION` -/
 def UNP : Str := Gen.UNPINNED_VERSION.toList
@@ -67,14 +100,18 @@ def isWs (c : Char) : Bool :=
 def lstrip (s : Str) : Str := s.dropWhile isWs
 def strip (s : Str) : Str := (lstrip (lstrip s).reverse).reverse
 
-/-- `i = pkg.find("#"); if i >= 0: pkg = pkg[:i]` -/
-def cutComment (s : Str) : Str := s.takeWhile (fun c => c != '#')
+/-- `i = pkg.find("#"); if i >= 0: pkg = pkg[:i]` – the mark is `Gen.REQ_COMMENT_MARK` -/
+def cutComment (s : Str) : Str := s.takeWhile (fun c => c != Gen.REQ_COMMENT_MARK)
 
-/-- `pkg.split("==")` (left to right, non-overlapping); `acc` is the current part reversed -/
-def splitEq : Str → Str → List Str
+/-- `s.split(ab)` for a two-character separator (left to right, non-overlapping); `acc` is the current part reversed -/
+def splitPair (a b : Char) : Str → Str → List Str
   | [], acc => [acc.reverse]
-  | '=' :: '=' :: rest, acc => acc.reverse :: splitEq rest []
-  | c :: rest, acc => splitEq rest (c :: acc)
+  | [c], acc => [(c :: acc).reverse]
+  | x :: y :: rest, acc =>
+    if x = a ∧ y = b then acc.reverse :: splitPair a b rest [] else splitPair a b (y :: rest) (x :: acc)
+
+/-- `pkg.split("==")` – the separator is `Gen.REQ_PIN_SEP` -/
+def splitEq (s acc : Str) : List Str := splitPair Gen.REQ_PIN_SEP.1 Gen.REQ_PIN_SEP.2 s acc
 
 /-- `pat in s` for strings: `pat` occurs as a contiguous substring -/
 def hasSub (pat : Str) : Str → Bool
@@ -84,22 +121,39 @@ def hasSub (pat : Str) : Str → Bool
 /-- `any(spec in pkg for spec in pats)` -/
 def hasSpecPat (pats : List Str) (s : Str) : Bool := pats.any (fun p => hasSub p s)
 
-/-- what is left of a line after comment removal and `strip` -/
-def body (raw : Str) : Str := strip (cutComment raw)
+/-- what is left of a line after comment removal and (`Gen.REQ_STRIP_AFTER_COMMENT`) `strip` -/
+def body (raw : Str) : Str := if Gen.REQ_STRIP_AFTER_COMMENT then strip (cutComment raw) else cutComment raw
 
-/-- `(pkg_name, pin)`; `pin = none` for an unpinned line; `none` = the line is skipped (l.82, l.89–98) -/
-def parseParts (pats : List Str) (pkg : Str) : Option (Str × Option Str) :=
+/-- characters of a distribution name -/
+def nameChar (c : Char) : Bool := c.isAlphanum || c == '-' || c == '_' || c == '.'
+
+/-- `VALID_PACKAGE_NAME.fullmatch(n)` for `[A-Za-z0-9]([A-Za-z0-9._-]*[A-Za-z0-9])?` (PEP 508): not empty, only name
+characters, first and last one alphanumeric -/
+def pep508Name (n : Str) : Bool :=
+  match n with
+  | [] => false
+  | c :: _ => c.isAlphanum && n.all nameChar && (match n.getLast? with
+    | some l => l.isAlphanum
+    | none => false)
+
+/-- the last operand of the rejection test, present when `nameCheck` -/
+def accept (nameCheck : Bool) (n : Str) (pin : Option Str) : Option (Str × Option Str) :=
+  if nameCheck && !pep508Name n then none else some (n, pin)
+
+/-- `(pkg_name, pin)`; `pin = none` for an unpinned line; `none` = the line is skipped by the rejection test
+(`len(parts) > REQ_MAX_PARTS or any(spec in pkg …) [or not VALID_PACKAGE_NAME.fullmatch(parts[0])]`) -/
+def parseParts (pats : List Str) (nameCheck : Bool) (pkg : Str) : Option (Str × Option Str) :=
   if hasSpecPat pats pkg then none
   else match splitEq pkg [] with
-    | [n] => some (n, none)
-    | [n, v] => some (n, some v)
-    | _ => none
+    | [] => none
+    | [n] => if 1 > Gen.REQ_MAX_PARTS then none else accept nameCheck n none
+    | n :: v :: rest => if rest.length + 2 > Gen.REQ_MAX_PARTS then none else accept nameCheck n (some v)
 
-/-- one line under the rejection set `pats` -/
-def parseLineWith (pats : List Str) (raw : Str) : Option (Str × Option Str) :=
-  if (body raw).isEmpty then none else parseParts pats (body raw)
+/-- one line under the rejection set `pats`; an empty body is skipped first when `Gen.REQ_SKIP_BLANK` -/
+def parseLineWith (pats : List Str) (nameCheck : Bool) (raw : Str) : Option (Str × Option Str) :=
+  if Gen.REQ_SKIP_BLANK && (body raw).isEmpty then none else parseParts pats nameCheck (body raw)
 
-def parseLine (cfg : Cfg) (raw : Str) : Option (Str × Option Str) := parseLineWith cfg.specPats raw
+def parseLine (cfg : Cfg) (raw : Str) : Option (Str × Option Str) := parseLineWith cfg.specPats cfg.nameCheck raw
 
 /-- `new_version` -/
 def newVersion : Option Str → Str
@@ -135,16 +189,48 @@ def upsert (t : Table) (e : Entry) : Table :=
 def modify (t : Table) (n : Str) (f : Entry → Entry) : Table :=
   t.map (fun x => if x.name = n then f x else x)
 
-inductive Branch where
-  | record      -- l.109 `if not current_pinned_version`, and l.131 (pinned replaces unpinned)
-  | keep        -- l.117 (unpinned vs recorded pin), l.169 (recorded is higher), and `except ValueError`
-  | addSource   -- l.148
-  | bump        -- l.154
-deriving DecidableEq, Repr
+/-- what one branch of the case split does: `record` (l.109 and l.131), `keep` (l.117, l.169, and `except ValueError`),
+`addSource` (l.148), `bump` (l.154) -/
+abbrev Branch := Gen.ReqAct
 
-/-- the case split of l.109–169 on the recorded version string `cur` (`none` = package not in the table) and
-the new one.  `Version(cur)` is evaluated before `Version(new)`; either failing skips the line. -/
-def branch {V} (ver : Ver V) (cur : Option Str) (new : Str) : Branch :=
+/-- `Version(cur) <op> Version(new)`; `none` = one of them raises (`InvalidVersion`, a `ValueError`; also written for
+`Version(None)`, which no table whose first row is `unset` ever evaluates) -/
+def verCmp {V} (ver : Ver V) (cur : Option Str) (new : Str) (f : V → V → Bool) : Option Bool :=
+  match cur with
+  | none => none
+  | some c =>
+    match ver.parse c, ver.parse new with
+    | some a, some b => some (f a b)
+    | _, _ => none
+
+/-- the test of one row of the case split on the recorded version string `cur` (`none` = package not in the table)
+and the new one; `none` = evaluating it raises `ValueError` -/
+def condHolds {V} (ver : Ver V) (cur : Option Str) (new : Str) : Gen.ReqCond → Option Bool
+  | .unset => some (decide (cur = none ∨ cur = some []))                      -- `not current_pinned_version`: "" is falsy too
+  | .newUnpCurPin => some (decide (new = UNP ∧ cur ≠ some UNP))
+  | .newPinCurUnp => some (decide (new ≠ UNP ∧ cur = some UNP))
+  | .bothUnpOrVerEq =>
+    if new = UNP ∧ cur = some UNP then some true else verCmp ver cur new (fun a b => ver.le a b && ver.le b a)
+  | .curLtNew => verCmp ver cur new (fun a b => ver.le a b && !ver.le b a)
+  | .curGtNew => verCmp ver cur new (fun a b => ver.le b a && !ver.le a b)
+
+/-- an if / elif chain: the first row whose test holds decides; a raising test skips the line (`except ValueError`);
+no row = nothing happens -/
+def branchRows {V} (ver : Ver V) (cur : Option Str) (new : Str) : List (Gen.ReqCond × Gen.ReqAct) → Branch
+  | [] => .keep
+  | (c, a) :: rest =>
+    match condHolds ver cur new c with
+    | none => .keep
+    | some true => a
+    | some false => branchRows ver cur new rest
+
+/-- the case split of l.109–169 as the code has it today: the rows `Gen.REQ_MERGE_ROWS` read off the source -/
+def branch {V} (ver : Ver V) (cur : Option Str) (new : Str) : Branch := branchRows ver cur new Gen.REQ_MERGE_ROWS
+
+/-- the same case split written out by hand (the shape at the end of the build round).  `Lemmas.branch_eq_ref` proves
+`branch = branchRef` against the generated rows on every run.  `Version(cur)` is evaluated before `Version(new)`;
+either failing skips the line. -/
+def branchRef {V} (ver : Ver V) (cur : Option Str) (new : Str) : Branch :=
   match cur with
   | none => .record
   | some c =>
@@ -184,12 +270,35 @@ def rejectedByFix {V} (cfg : Cfg) (ver : Ver V) (pin : Option Str) : Bool :=
     | some v => (ver.parse v).isNone
     | none => false)
 
+/-- separators that PEP 503 name normalisation collapses -/
+def isNameSep (c : Char) : Bool := c == '-' || c == '_' || c == '.'
+
+/-- PEP 503: lower case, every run of `- _ .` becomes one `-`.  `importlib.metadata` and pip identify a distribution
+by this form – `My_Pkg`, `my-pkg` and `my.pkg` are the same package for them (pyscript compares the raw text) -/
+def normName : Str → Str
+  | [] => []
+  | c :: cs =>
+    if isNameSep c then
+      match normName cs with
+      | '-' :: r => '-' :: r
+      | r => '-' :: r
+    else c.toLower :: normName cs
+
+/-- `pkg_name`: the text before `==`, or (`normNames`) its PEP 503 normal form -/
+def keyOf (cfg : Cfg) (n : Str) : Str := if cfg.normNames then normName n else n
+
+/-- what one raw line means to the code: `(table key, pin)`, or `none` when the line is skipped (blank, rejection
+test, a pin that is not a version once `validateFirstPin`) -/
+def meaning {V} (cfg : Cfg) (ver : Ver V) (raw : Str) : Option (Str × Option Str) :=
+  match parseLine cfg raw with
+  | none => none
+  | some (name, pin) => if rejectedByFix cfg ver pin then none else some (keyOf cfg name, pin)
+
 /-- one line of one file -/
 def processLine {V} (cfg : Cfg) (ver : Ver V) (site : Str → Option Str) (t : Table) (l : Nat × Str) : Table :=
-  match parseLine cfg l.2 with
+  match meaning cfg ver l.2 with
   | none => t
-  | some (name, pin) =>
-    if rejectedByFix cfg ver pin then t else merge1 ver site t l.1 name (newVersion pin)
+  | some (key, pin) => merge1 ver site t l.1 key (newVersion pin)
 
 def mergeAll {V} (cfg : Cfg) (ver : Ver V) (site : Str → Option Str) (ls : List (Nat × Str)) : Table :=
   ls.foldl (processLine cfg ver site) []
@@ -269,25 +378,81 @@ deriving DecidableEq, Repr
 
 def veq {V} (ver : Ver V) (a b : V) : Bool := ver.le a b && ver.le b a
 
-/-- l.221–285 for one package; `recd` = `pyscript_installed_packages.get(package)` at that moment -/
-def decidePkg {V} (ver : Ver V) (recd : Option Str) (e : Entry) : PkgDec :=
+/-- `same_version(a, b)`: the same text, or both versions and equal as versions; a string that is not a version only
+equals itself -/
+def sameV {V} (ver : Ver V) (a b : Str) : Bool :=
+  a == b || (match ver.parse a, ver.parse b with
+    | some x, some y => veq ver x y
+    | _, _ => false)
+
+/-- `Version(a) != Version(b)` (`none` = `InvalidVersion` escapes `install_requirements`), or
+`not same_version(a, b)` when `tolerantCmp` -/
+def differs {V} (cfg : Cfg) (ver : Ver V) (a b : Str) : Option Bool :=
+  if cfg.tolerantCmp then some (!sameV ver a b)
+  else match ver.parse a, ver.parse b with
+    | some x, some y => some (!veq ver x y)
+    | _, _ => none
+
+def hostAct : Gen.HostAct → PkgDec
+  | .install => .install
+  | .pop => .pop
+  | .nothing => .nothing
+
+/-- the test of one row of the per-package decision for an INSTALLED package (`i` = the installed version, truthy);
+`recd` = `pyscript_installed_packages.get(package)` at that moment, `want` = the version to install; `none` = raises -/
+def hostHolds {V} (cfg : Cfg) (ver : Ver V) (recd : Option Str) (i want : Str) : Gen.HostCond → Option Bool
+  | .notInstalled => some false
+  | .unpinnedRecTextDiffers => some (decide (want = UNP) && (match recd with
+      | some r => decide (r ≠ i)                                                 -- string comparison (l.233–236)
+      | none => false))
+  | .unpinned => some (decide (want = UNP))
+  | .recVersionDiffers => (match recd with
+      | some r => differs cfg ver r i                                     -- l.243: externally managed now
+      | none => some false)
+  | .recAndWantDiffers => (match recd with
+      | some _ => differs cfg ver want i                                  -- l.259
+      | none => some false)
+  | .otherwise => some true
+
+def hostRows {V} (cfg : Cfg) (ver : Ver V) (recd : Option Str) (i want : Str) : List (Gen.HostCond × Gen.HostAct) → PkgDec
+  | [] => .nothing
+  | (c, a) :: rest =>
+    match hostHolds cfg ver recd i want c with
+    | none => .raise
+    | some true => hostAct a
+    | some false => hostRows cfg ver recd i want rest
+
+/-- what the row `notInstalled` (the `else` of `if pkg_installed_version:`) does -/
+def notInstalledAct : List (Gen.HostCond × Gen.HostAct) → PkgDec
+  | [] => .nothing
+  | (c, a) :: rest => if c = .notInstalled then hostAct a else notInstalledAct rest
+
+/-- l.221–277 for one package as the code has it today: the rows `Gen.REQ_DECIDE_ROWS` read off the source -/
+def decidePkg {V} (cfg : Cfg) (ver : Ver V) (recd : Option Str) (e : Entry) : PkgDec :=
   match truthy e.installed with
-  | none => .install                                          -- l.283
+  | none => notInstalledAct Gen.REQ_DECIDE_ROWS
+  | some inst => hostRows cfg ver recd inst e.version Gen.REQ_DECIDE_ROWS
+
+/-- the same decision written out by hand (`Lemmas.decidePkg_eq_ref`) -/
+def decidePkgRef {V} (cfg : Cfg) (ver : Ver V) (recd : Option Str) (e : Entry) : PkgDec :=
+  match truthy e.installed with
+  | none => .install                                          -- l.277
   | some inst =>
-    if e.version = UNP then                                   -- l.228
+    if e.version = UNP then                                   -- l.224
       match recd with
-      | some r => if r ≠ inst then .pop else .nothing         -- string comparison (l.237–241)
+      | some r => if r ≠ inst then .pop else .nothing         -- string comparison (l.233–237)
       | none => .nothing
     else match recd with
-      | none => .nothing                                      -- l.273: installed by somebody else
+      | none => .nothing                                      -- l.265: installed by somebody else
       | some r =>
-        match ver.parse r, ver.parse inst with
-        | some a, some b =>
-          if !veq ver a b then .pop                           -- l.247: externally managed now
-          else match ver.parse e.version with                 -- l.265
-            | some w => if !veq ver w b then .install else .nothing
-            | none => .raise                                  -- InvalidVersion escapes install_requirements
-        | _, _ => .raise
+        match differs cfg ver r inst with
+        | none => .raise                                      -- InvalidVersion escapes install_requirements
+        | some true => .pop                                   -- l.243: externally managed now
+        | some false =>
+          match differs cfg ver e.version inst with           -- l.259
+          | none => .raise
+          | some true => .install
+          | some false => .nothing
 
 structure LoopSt where
   recd : Rec
@@ -301,12 +466,12 @@ def applyDec (st : LoopSt) (e : Entry) : PkgDec → Option LoopSt
   | .raise => none
 
 /-- the `for package in all_requirements` loop; `none` = an exception escaped -/
-def decideLoop {V} (ver : Ver V) : Table → LoopSt → Option LoopSt
+def decideLoop {V} (cfg : Cfg) (ver : Ver V) : Table → LoopSt → Option LoopSt
   | [], st => some st
   | e :: es, st =>
-    match applyDec st e (decidePkg ver (rget st.recd e.name) e) with
+    match applyDec st e (decidePkg cfg ver (rget st.recd e.name) e) with
     | none => none
-    | some st' => decideLoop ver es st'
+    | some st' => decideLoop cfg ver es st'
 
 inductive Phase1 where
   | blocked                                   -- l.212–217: requirements present, allow_all_imports off
@@ -314,9 +479,9 @@ inductive Phase1 where
   | go (rec1 : Rec) (toInstall : List Entry)
 deriving DecidableEq, Repr
 
-def phase1 {V} (ver : Ver V) (allowAll : Bool) (t : Table) (r : Rec) : Phase1 :=
-  if !t.isEmpty && !allowAll then .blocked
-  else match decideLoop ver t { recd := r, toInstall := [] } with
+def phase1 {V} (cfg : Cfg) (ver : Ver V) (allowAll : Bool) (t : Table) (r : Rec) : Phase1 :=
+  if Gen.REQ_OPTIN_GUARD && !t.isEmpty && !allowAll then .blocked
+  else match decideLoop cfg ver t { recd := r, toInstall := [] } with
     | none => .raised
     | some st => .go st.recd st.toInstall
 
@@ -353,20 +518,6 @@ structure World where
   site : Rec                  -- installed distributions
   index : Rec                 -- version an unpinned install would fetch
 deriving Repr
-
-/-- separators that PEP 503 name normalisation collapses -/
-def isNameSep (c : Char) : Bool := c == '-' || c == '_' || c == '.'
-
-/-- PEP 503: lower case, every run of `- _ .` becomes one `-`.  `importlib.metadata` and pip identify a distribution
-by this form – `My_Pkg`, `my-pkg` and `my.pkg` are the same package for them (pyscript compares the raw text) -/
-def normName : Str → Str
-  | [] => []
-  | c :: cs =>
-    if isNameSep c then
-      match normName cs with
-      | '-' :: r => '-' :: r
-      | r => '-' :: r
-    else c.toLower :: normName cs
 
 /-- a plain distribution name as the index / site-packages know it -/
 def envName (c : Char) : Bool := c.isAlphanum || isNameSep c
@@ -414,23 +565,48 @@ structure Out where
   exc : Option String
 deriving Repr
 
+/-- how the record is read from the config entry: as it is, or (`normRecKeys`) through
+`{canonical_name(k): v for k, v in ….items()}` – a later spelling of the same package overwrites the value of an
+earlier one in the earlier one's place -/
+def readRec (cfg : Cfg) (r : Rec) : Rec :=
+  if cfg.normRecKeys then r.foldl (fun acc kv => rset acc (normName kv.1) kv.2) [] else r
+
+/-- `was_installed(package, version)` after a failed installer call: the package is there now and – when a version
+was asked for – in that version (before the call it was absent or in a different version) -/
+def wasInstalled {V} (ver : Ver V) (site' : Str → Option Str) (e : Entry) : Bool :=
+  match truthy (site' e.name) with
+  | none => false
+  | some i => e.version == UNP || sameV ver i e.version
+
+/-- the end of `install_requirements`: the new record and whether it is stored (`!=` the stored one) -/
+def finish (site' : Str → Option Str) (r rec1 : Rec) (ti : List Entry) : Rec × Bool :=
+  let r' := phase2 site' rec1 ti
+  if dictEq r' r then (r, false) else (r', true)
+
 def runOnce {V} (cfg : Cfg) (ver : Ver V) (w : World) (allowAll : Bool) (r : Rec) (ls : List (Nat × Str)) :
     World × Out :=
   let t := mergeAll cfg ver w.installed ls
-  match phase1 ver allowAll t r with
+  match phase1 cfg ver allowAll t (readRec cfg r) with
   | .blocked => (w, { table := t, args := none, rec' := r, updated := false, exc := none })
   | .raised => (w, { table := t, args := none, rec' := r, updated := false, exc := some "InvalidVersion" })
   | .go rec1 ti =>
     if ti.isEmpty then
-      let r' := phase2 w.installed rec1 ti
-      (w, { table := t, args := none, rec' := r', updated := !dictEq r' r, exc := none })
+      (w, { table := t, args := none, rec' := (finish w.installed r rec1 ti).1,
+            updated := (finish w.installed r rec1 ti).2, exc := none })
     else
       match installAll ver w ti with
-      | (w', false) => (w', { table := t, args := some (installArgs ti), rec' := r, updated := false,
-                              exc := some "RequirementsNotFound" })
+      | (w', false) =>
+        if cfg.recordPartial then
+          (w', { table := t, args := some (installArgs ti),
+                 rec' := (finish w'.installed r rec1 (ti.filter (wasInstalled ver w'.installed))).1,
+                 updated := (finish w'.installed r rec1 (ti.filter (wasInstalled ver w'.installed))).2,
+                 exc := some "RequirementsNotFound" })
+        else
+          (w', { table := t, args := some (installArgs ti), rec' := r, updated := false,
+                 exc := some "RequirementsNotFound" })
       | (w', true) =>
-        let r' := phase2 w'.installed rec1 ti
-        (w', { table := t, args := some (installArgs ti), rec' := r', updated := !dictEq r' r, exc := none })
+        (w', { table := t, args := some (installArgs ti), rec' := (finish w'.installed r rec1 ti).1,
+               updated := (finish w'.installed r rec1 ti).2, exc := none })
 
 /-! ## PEP 440 versions – the instance the driver and the witnesses use
 
